@@ -61,3 +61,25 @@ Theorem groupbcd_history :
   (g_obj out = nil \/ bobjective cfg K (g_s out) = Ok (last (g_obj out) PInf)).
 Proof. intros F H A. exact (@bsolve_history F H A). Qed.
 Print Assumptions groupbcd_history.
+
+Require Import SK.Skel.ProxNewton SK.Skel.ProxNewtonProofs.
+Theorem proxnewton_history :
+  forall {F} `{Num F} (cfg : @pn_config F) (K : @pn_kernels F) w_init Xw_init out,
+  pn_solve cfg K w_init Xw_init = Ok out ->
+  length (g_obj out) = g_iters out /\ (g_iters out <= pn_max_iter cfg)%nat /\
+  (g_obj out = nil \/ pn_objective cfg K (g_s out) = Ok (last (g_obj out) PInf)).
+Proof. intros F H. exact (@pn_solve_history F H). Qed.
+Print Assumptions proxnewton_history.
+
+(* FISTA (skeleton tied end to end): one entry per iteration, at least one iteration when anything is returned, the last
+   entry is the objective of the returned w; the returned stop_crit is the score of the returned w against the gradient
+   kept in the state, i.e. taken at the PREVIOUS extrapolated point (this is the known finding of this property,
+   stated as what the code does) *)
+Require Import SK.Skel.Fista SK.Skel.FistaProofs.
+Theorem fista_history_and_stop_value :
+  forall {F} `{Num F} (K : @fkernels F) (L : F) max_iter tol p w_init s obj stop n,
+  fsolve K L max_iter tol p w_init = Ok (s, obj, stop, n) ->
+  length obj = n /\ (n <= max_iter)%nat /\ (0 < n)%nat /\
+  fobjective K s = Ok (last obj PInf) /\ fcrit K s = Ok stop.
+Proof. intros F H. exact (@fsolve_history F H). Qed.
+Print Assumptions fista_history_and_stop_value.
